@@ -69,5 +69,11 @@ pub fn exec(_ctx: &mut Ctx, t: &mut Toks) -> String {
     out.push_str(&nat_list(&kept));
     out.push(' ');
     out.push_str(&nat_list(&again));
+    // cos / sin of every box angle, for the driver's own (exact) coverage reference
+    out.push_str(" CS");
+    for b in &fresh {
+        let a = b.angle.unwrap_or(0.0) as f64;
+        out.push_str(&format!(" {} {}", f64_tok(a.cos()), f64_tok(a.sin())));
+    }
     out
 }
